@@ -6,7 +6,9 @@ import progen
 import runlib
 
 THEOREMS = ["Types.no_implicit_conversion", "Types.mismatch_is_E551", "Types.op_classes", "Types.allPrims_complete",
-            "Types.cast_classes", "Types.violation_rejected", "Types.pointer_mismatch", "Types.pointer_only_equality"]
+            "Types.cast_classes", "Types.violation_rejected", "Types.pointer_mismatch", "Types.pointer_only_equality",
+            "Types.Ty.conc_concrete", "Types.Ty.conc_refl", "Types.Ty.declaredAs_concrete", "Types.Ty.equals_iff",
+            "Types.Ty.coerceInto_shape", "Types.Ty.update_concrete", "Types.Ty.update_prims", "Types.Ty.update_array_lengths"]
 
 PRIMS = ["i8", "i16", "i32", "i64", "i128", "u8", "u16", "u32", "u64", "u128", "usize", "char8", "bool"]
 BIN = {"add": "+", "sub": "-", "mul": "*", "div": "/", "mod": "%", "and": "&", "or": "|", "xor": "^", "shl": "<<", "shr": ">>"}
@@ -211,6 +213,64 @@ def main():
             rep.violation("mutant:%s:%s" % (kind, src[:300]), {
                 "why": "type-breaking edit (%s) is not rejected with a typing diagnostic: %s %s" % (kind, hh, codes),
                 "source": src, "harness_request": "alpha\tcheck\tm.pn\t" + esc(src), "implementation": ma_[:300]})
+    # the type-agreement relations of value_type.rs (what the typer's unification is made of) against the Lean model
+    # (Types/Agree.lean), on pairs of types: all pairs to nesting depth 1, every depth-2 type against itself and its
+    # one-position variants, random deeper pairs
+    LEAVES = ["i32", "u8", "char8", "bool", "void", "usize", "(struct 1)", "(struct 2)", "(word 1 8)", "(word 1 4)", "(word 2 8)",
+              "unresolved", "(unresolved 1)", "(unresolved 2)"]
+    CONS = ["(array 2 %s)", "(array 3 %s)", "(named 1 %s)", "(named 2 %s)", "(slice %s)", "(sliceptr %s)", "(endless %s)",
+            "(arraylike %s)", "(pointer %s)", "(view %s)"]
+    d1 = [c % l for c in CONS for l in LEAVES]
+    d01 = LEAVES + d1
+    pairs = [(a, b) for a in d01 for b in d01]
+    d2 = [(c, t) for c in CONS for t in d1]
+    for (c, t) in d2:
+        a = c % t
+        pairs.append((a, a))
+        for c2 in CONS:
+            pairs.append((a, c2 % t))
+        for t2 in rng.sample(d1, 6) if hasattr(rng, "sample") else [rng.pick(d1) for _ in range(6)]:
+            pairs.append((a, c % t2))
+            pairs.append((c % t2, a))
+
+    def rand_ty(r, depth):
+        if depth == 0 or r.chance(1, 4):
+            return r.pick(LEAVES)
+        return r.pick(CONS) % rand_ty(r, depth - 1)
+
+    def vary(r, t):
+        # change one atom or one constructor of the S-expression
+        toks = t.replace("(", " ( ").replace(")", " ) ").split()
+        idx = [i for i, x in enumerate(toks) if x not in "()" and not x.isdigit()]
+        i = r.pick(idx)
+        heads = ["array 2", "array 3", "named 1", "named 2", "slice", "sliceptr", "endless", "arraylike", "pointer", "view"]
+        if toks[i] in ("array", "named"):
+            toks[i:i + 2] = r.pick(heads).split()
+        elif toks[i] in ("slice", "sliceptr", "endless", "arraylike", "pointer", "view"):
+            toks[i:i + 1] = r.pick(heads).split()
+        elif toks[i] in ("struct", "word", "unresolved") and i > 0 and toks[i - 1] == "(":
+            return t
+        else:
+            toks[i] = r.pick(["i32", "u8", "char8", "bool", "usize"])
+        return " ".join(toks).replace("( ", "(").replace(" )", ")")
+    for i in range(60000 if thorough else 8000):
+        r = rng.fork("ty%d" % i)
+        a = rand_ty(r, 2 + r.below(3))
+        b = a if r.chance(1, 6) else (vary(r, a) if r.chance(2, 3) else rand_ty(r, 2 + r.below(3)))
+        pairs.append((a, b))
+    am = run_model(["agree\t(agree %s %s)" % ab for ab in pairs])
+    ah2 = run_harness(["agree\t%s\t%s" % ab for ab in pairs])
+    for (a, b), ma, ha in zip(pairs, am, ah2):
+        total += 1
+        dist["agree-relations:" + ("same" if a == b else "different") + ":" + ma.replace("declared=", "d").replace(" conc=", "c").replace(" coerce=", "o").replace(" coerceaddr=", "a")] += 1
+        if ma == ha and not ma.startswith("bad"):
+            agreeing += 1
+        else:
+            rep.violation("agree-relations:%s:%s" % (a, b), {
+                "why": "can_be_declared_as / can_be_concretization_of / can_coerce_into / can_coerce_address_into on this pair of "
+                       "types differ between value_type.rs and the Lean model",
+                "types": [a, b], "model": ma, "implementation": ha, "model_request": "agree\t(agree %s %s)" % (a, b),
+                "harness_request": "agree\t%s\t%s" % (a, b)})
     report_broken_proof(rep)
     rep.coverage.update({
         "evaluations": total, "distinct_nontrivial": total,
@@ -219,7 +279,10 @@ def main():
                 "pointer against its pointee type, 2 unary operators x 13, calls with 0..4 arguments against 0..3 parameters, initialisation / assignment / argument / return / pointer agreement for all 13 x 13 type pairs, all 13 x 13 casts (each cell a small program; verdict and code "
                 "vs the Lean tables); plus well-typed generated programs with one type-breaking edit (declared type changed, "
                 "literal of another type, bool/int confusion, wrong argument type, missing/extra argument, wrong return type, "
-                "unsigned negation, signed bitwise): the original must be accepted, the mutant rejected with a typing code",
+                "unsigned negation, signed bitwise): the original must be accepted, the mutant rejected with a typing code; "
+                "the four public type-agreement relations of value_type.rs against the Lean model on all pairs of types to depth 1 "
+                "(157 x 157 over 14 leaves incl. structures, words, unresolved placeholders and 10 constructors), every depth-2 "
+                "type against its one-constructor variants, and random pairs to depth 4",
         "exhaustive": True,
         "traces_validated_against_impl": agreeing, "distribution": dict(dist),
         "samples": [cells[0][2], cells[-1][2]],
